@@ -264,12 +264,18 @@ class Prov:
 
             def visit_Attribute(self, node):
                 self.generic_visit(node)
+                if isinstance(node.value, ast.Call) and isinstance(node.ctx, ast.Load):
+                    # a record of this repository built and projected in one expression is the argument itself
+                    r = prov.ix.record_project(node.value, node.attr)
+                    if r is not None:
+                        return r
                 c = prov.callee(node) if isinstance(node.ctx, ast.Load) else None
                 if c is not None and not isinstance(node.value, ast.Call) and not (_root(node) or "").startswith(("P_", "PHI_", "L_")):
                     return ast.Name(id=c, ctx=ast.Load())
                 return node
 
         e = N().visit(e)
+        e = _RecordIndex(prov.ix).visit(e)
         if commutative:
             e = _Commute().visit(e)
         if getattr(self, "_want_ast", False):
@@ -296,7 +302,31 @@ class Prov:
     def canon_call(self, call, at_stmt):
         """(callee, [canonical positional args], {kw: canonical})"""
         c = self.callee(self.inline(call.func, at_stmt)) or ast.unparse(call.func)
-        return c, [self.canon(a, at_stmt) for a in call.args], {k.arg: self.canon(k.value, at_stmt) for k in call.keywords if k.arg}
+        args = [self.canon(a, at_stmt) for a in call.args]
+        kw = {k.arg: self.canon(k.value, at_stmt) for k in call.keywords if k.arg}
+        # positional arguments of the repository's own functions are also available under the parameter's name
+        from .index import SIG_DOTTED
+        sig = SIG_DOTTED.get(c)
+        if sig and not any(isinstance(a, ast.Starred) for a in call.args):
+            for p_, a_ in zip(sig, args):
+                kw.setdefault(p_, a_)
+        return c, args, kw
+
+
+class _RecordIndex(ast.NodeTransformer):
+    """`K(a, b)[0]` -> `a` for records of this repository (after callee resolution)"""
+
+    def __init__(self, ix):
+        self.ix = ix
+
+    def visit_Subscript(self, node):
+        self.generic_visit(node)
+        if isinstance(node.value, ast.Call) and isinstance(node.slice, ast.Constant) and isinstance(node.slice.value, int) \
+                and isinstance(node.ctx, ast.Load):
+            r = self.ix.record_project(node.value, node.slice.value)
+            if r is not None:
+                return r
+        return node
 
 
 class _Commute(ast.NodeTransformer):
